@@ -329,6 +329,10 @@ def gen_doc(rng, chk, size, lookups=0):
             sec, key = pick_names(rng, chk, secs)
             tail.append("life %s %s" % (arg(sec), arg(key)))
             chk.bump("op:life")
+        if rng.random() < 0.1:
+            sec, key = pick_names(rng, chk, secs)
+            tail.append("lifec %s %s" % (arg(sec), arg(key)))
+            chk.bump("op:lifec")
     return ops + tail
 
 
@@ -551,7 +555,7 @@ def getter_view(tokens):
     return " ".join(out)
 
 
-LIFE_MARKS = ("U", "N", "P", "Q", "M")
+LIFE_MARKS = ("U", "N", "P", "Q", "M", "C", "X", "E", "L", "D")
 
 
 def life_segments(line):
@@ -602,6 +606,25 @@ def spec_view(op, line):
                 out.append(" ".join(sg[:4]))
             elif sg[0] == "Q":
                 out.append("Q " + ("unchanged" if sg[1:] == first_p else "changed: " + " ".join(sg[1:])))
+            else:
+                out.append(" ".join(sg))
+        return " | ".join(out)
+    if o == "lifec":
+        # a failing fclose is no failure of the parse: the call succeeds, the object is parsed (its content is the model's
+        # business), a second parse changes nothing; a file that cannot be opened is reported whatever fclose would do
+        segs = life_segments(line)
+        out = []
+        first_c = None
+        for sg in segs:
+            if sg[0] == "C":
+                first_c = [t for t in sg[1:] if not t.startswith(("fc=", "w="))]
+                out.append(" ".join(sg[:4]))
+            elif sg[0] == "Q":
+                out.append("Q " + ("unchanged" if [t for t in sg[1:] if not t.startswith(("fc=", "w="))] == first_c else "changed: " + " ".join(sg[1:])))
+            elif sg[0] in ("X", "E", "L"):
+                out.append(" ".join(sg[:4]))            # cannot be opened: failure reported, object stays unparsed
+            elif sg[0] == "D":
+                out.append(" ".join(sg[:4] + sg[6:]))   # a directory reads as an empty file
             else:
                 out.append(" ".join(sg))
         return " | ".join(out)
@@ -769,7 +792,8 @@ def directed_cases():
     # keys / sections that differ only in case or are prefixes of one another; every getter default both ways
     out.append(doc([H(b"sec"), E(b"key", b"1"), E(b"KEY", b"2"), E(b"ke", b"3"), E(b"key1", b"4"), H(b"SEC"), E(b"key", b"5"), H(b"se"), E(b"k", b"6")],
                    ["gget %s %s NULL 0 0 %s" % (hx(a), hx(b), z) for a in (b"sec", b"SEC", b"se", b"Sec", b"s", b"sec1") for b in (b"key", b"KEY", b"ke", b"key1", b"Key", b"k", b"key12")] +
-                   ["life %s %s" % (hx(b"sec"), hx(b"key")), "life NULL NULL", "life %s %s" % (hx(b"SEC"), hx(b"KEY"))]))
+                   ["life %s %s" % (hx(b"sec"), hx(b"key")), "life NULL NULL", "life %s %s" % (hx(b"SEC"), hx(b"KEY")),
+                    "lifec %s %s" % (hx(b"sec"), hx(b"key")), "lifec NULL %s" % hx(b"key"), "lifec %s %s" % (hx(b"se"), hx(b"k"))]))
     # defaults: each getter with each "unusual" default for a missing key, a missing section, NULL names
     look = [("73", "6e6f"), ("6e6f", "6b"), ("NULL", "6b"), ("73", "NULL"), ("NULL", "NULL"), ("-", "6b"), ("73", "-")]
     out.append(doc([H(b"s"), E(b"k", b"7")],
@@ -805,7 +829,7 @@ def run(chk):
         proof_ok = False
         chk.cov["discharged"] = 0
     try:
-        exe = pv.build_harness("ini", cfg, ["ini.c"], repo_files=None, san="asan")
+        exe = pv.build_harness("ini", cfg, ["ini.c"], repo_files=None, san="asan", link=["-Wl,--wrap=fclose"])
     except pv.BuildError as e:
         chk.violation(str(e), "harness for C16 does not build against the current source", no_input=True, suffix="txt")
         return finish(chk)
@@ -835,6 +859,9 @@ def run(chk):
             if rng.random() < 0.2:
                 c.append("life %s %s" % (arg(rng.choice(RAW_NAMES + [None])), arg(rng.choice(RAW_NAMES + [None]))))
                 chk.bump("op:life")
+            if rng.random() < 0.15:
+                c.append("lifec %s %s" % (arg(rng.choice(RAW_NAMES + [None])), arg(rng.choice(RAW_NAMES + [None]))))
+                chk.bump("op:lifec")
         raws.append(c)
     cases += raws
     # (iv) the pstring.c entry points the parser and the getters rely on
@@ -847,7 +874,8 @@ def run(chk):
     chk.cov["exhaustive_small_scope"] = {"alphabet": EX_ALPHABET.decode(), "max_line_length": depth, "files": len(ex)}
     chk.cov["generated"] = {"grammar_documents": len(docs), "malformed_files": len(raws), "exhaustive_lines": len(ex),
                             "pstring_ops": sum(len(c) for c in ps), "lookups_with_chosen_arguments": sum(1 for c in docs + raws for o in c if o.split()[0] in ("get", "gget")),
-                            "life_cycle_scenarios": sum(1 for c in docs + raws for o in c if o.startswith("life "))}
+                            "life_cycle_scenarios": sum(1 for c in docs + raws for o in c if o.startswith("life ")),
+                            "failing_fclose_scenarios": sum(1 for c in docs + raws for o in c if o.startswith("lifec "))}
     found, corr, thm = diffrun.campaign(chk, fam, cases, proof_ok, detail, signature_of, "C16", batch=60)
     diffrun.conclude(chk, found, corr, thm, proof_ok and driver_ok, detail, "C16 INI parser")
     chk.cov["rule"] = ("one case = one file, given as pieces (one op per physical line) followed by parse/gparse; (i) files rendered from random documents "
@@ -860,6 +888,7 @@ def run(chk):
                        "NULL and empty names, a NUL inside an argument; string default NULL / empty / long, int default 0 / INT_MIN / INT_MAX / random, boolean default FALSE and TRUE, "
                        "double default +-0 / NaN / +-inf / denormal / random bits) compared with the model and, for documents, with the documented lookup (IniSpec.docFind); "
                        "(v) op life: unparsed object, NULL object, parse twice with the file rewritten in between, a path that does not exist parsed twice; "
+                       "op lifec: the parse whose final fclose reports a failure (-Wl,--wrap=fclose, the real call is made, its result scripted), then a second parse, then objects for a missing file, a path through a regular file (ENOTDIR), a 5000-byte name and a directory; "
                        "(vi) the double of every found value and of p_strtod is also judged against Python's correctly rounded float() (relative 1e-12) when the text is a plain decimal "
                        "numeral of at most 40 digits with |exponent| <= 280; (vii) pstring.c entry points: p_strchomp on every string of up to 5 (thorough 6) symbols over SP HT VT a, "
                        "on every single byte, NULL; p_strtok on every string of up to 5 (6) symbols over a b , SP with delimiter sets \",\" and \", \" plus changing / NULL delimiter sets and a NULL "
@@ -873,6 +902,7 @@ def run(chk):
         "isdigit is called by p_strtod on a plain (signed) char; glibc's table lookup returns 0 for bytes >= 0x80, as the model assumes",
         "the file is read back exactly as written (regular file on a local file system, fopen \"r\" does no translation on POSIX)",
         "allocation never fails in this check (C18 covers failure)",
+        "fopen (directory, \"r\") succeeds and the first fgets on it fails (Linux/glibc): a directory parses as an empty file (op lifec, segment D)",
         "the spec column is produced for documents satisfying PV.IniSpec.WF only: distinct section names, non-empty unquoted values, no blanks directly inside quotes, no NUL, lines <= 1024 bytes, no line that starts like a byte-order mark",
     ]
     return finish(chk)
